@@ -20,6 +20,7 @@ RULE = ("full-grammar terms (depth <= 5 / 7) with paths of depth 1..4 rooted at 
         "occur as plain fields, inner segments (y/x/a), attribute names (x/x/a) and namespaced "
         "identifiers (ns.x/a). distinct = distinct (term text, variable); non-trivial = the "
         "variable occurs as a path root at least once")
+RULE += (" " + 'Also: variable spelled like a called function / segment / parameter name; paths of 120..420 segments (before the tracer is installed); nested lambdas whose variable is a namespaced homonym.')
 ASSUMPTIONS = ["nested lambdas re-binding the same name are outside the quantifier"]
 SHARDS = {"quick": 10, "thorough": 16}
 BUDGET_S = {"quick": 40, "thorough": 500}
